@@ -17,17 +17,22 @@ rule = ("scripts = 'dec new <codec> <align>:<hex> ...' (guarded segments at the 
         "'dec peek', 'dec size'.  Stream 1 (exhaustive) = every byte string over {00,01,02,1f,20,de,df,e0,e1,fe,ff} up to "
         "length 4 x 4 COBS decoders in one segment, and up to length 3 (quick) / 4 (thorough) additionally in every "
         "2-segmentation as two segments and as 2-step arrival; plus a seeded sample of longer strings (all three forms); "
-        "stream 1b = every 3-segmentation (empty segments included) of every string of length 2..3 (thorough: plus a third of the 3-segmentations of length 4) "
+        "stream 1b = every 3-segmentation (empty segments included) of every string of length 2 (thorough: 2..3) plus a third of the 3-segmentations of the strings of length 3 (thorough: 4) "
         "and of valid multi-block frames (single and two frames back to back) for all 4 decoders, a third of them with a "
         "fourth, empty segment inserted, and of command text with head room; stream 2 = valid frames of structured "
         "messages (block-boundary lengths) mutated (byte flip, zero inserted, truncation, doubled delimiter) under random "
-        "segmentations/alignments/head room, command text included; stream 3 = random bytes with peek/size calls in between.  "
+        "segmentations/alignments/head room, command text included; stream 3 = random bytes with peek/size calls in between; "
+        "stream 4 = decoder states set by hand ('dec state': open blocks in data and zero part, with and without work area, waiting message) "
+        "followed by run/peek/more input, and command text previews.  Third part (coded-queue driver): byte strings over the alphabet and mutated "
+        "frames fed into the input queue ('dq feed'), 4-8 KiB queues enlarged while their content wraps with > 1 KiB on both sides, queues without decoder.  "
         "Non-trivial = a script in which a call returned an error, or a message was delivered after an earlier call had "
         "returned 0 (resumed), or a message was delivered from input spread over >= 2 segments, counted per distinct script")
 assumptions = [
     "libc memcpy/memchr behave as specified",
-    "guard bytes (>= 64 before, >= 48 after every segment) and AddressSanitizer/UBSan detect stray accesses of the compiled code; "
-    "the theorem about indices is about the model",
+    "every segment ends at the end of its heap block: AddressSanitizer reports any load or store behind a segment; in front of a segment "
+    ">= 64 guard bytes show stray stores (a stray load in front of a segment is only seen when it changes an observable result); "
+    "the theorems about indices are about the model (one flattened buffer)",
+    "termination of the C loops is observed, not proved: a decoder call that does not return within 10 s is reported as a fault (alarm)",
     "the segment base address enters only through addr & 15 (pinned by the driver, passed to the model)",
 ]
 trusted = ["hand-written model MptModel/Impl/Decode.lean tied to mptcore/convert/decode_cobs.c, decode_cobs_zpe.c, "
@@ -196,8 +201,8 @@ def scripts(tier, seed, scale=1):
             n = len(x)
             for i in range(0, n + 1):
                 for j in range(i, n + 1):
-                    if n >= 4 and (i + j + k) % 3:
-                        continue        # thorough tier: a third of the splits of the length-4 strings
+                    if n >= top3 and (i + j + k) % 3:
+                        continue        # a third of the splits of the longest strings (length 3 quick, length 4 thorough)
                     out.append(("s3:%s:%s:%d:%d" % (codec, gen.hexs(x), i, j), seg3(codec, x, i, j, k)))
         for k, m in enumerate(base_msgs):
             f = ref_encode(codec, m)
@@ -248,6 +253,35 @@ def scripts(tier, seed, scale=1):
         p0 = r.choice([0.02, 0.1, 0.3])
         data = [0 if r.random() < p0 else r.choice(ALPHA + [r.randrange(256)] * 6) for _ in range(n)]
         out.append(("rnd:%s:%d" % (codec, k), stream_script(r, codec, data, r.choice([0, 1, 2, 4, 32]))))
+    # ---- stream 4: decoder states set by hand (every consistent combination of small offsets, open blocks in
+    # their data and zero parts, with and without work area — also states no decoder call leaves behind, e.g. an
+    # open data block without a byte of work area), then run / peek / more input.  The spec column is silent
+    # there; code and model are compared, guards and sanitizers watch the accesses.
+    r = gen.rng(id, tier, seed, "states")
+    ns = (500 if tier == "quick" else 8000) * scale
+    inputs = [[0x41, 0x42, 0x43, 0], [0x41, 0, 0x42, 0], [0x02, 0x41, 0], [0xe1, 0x41, 0], [0x41], [0, 0]]
+    for k in range(ns):
+        codec = r.choice(DECODERS + ["command"])
+        code = r.choice([0, 1, 2, 3, 5, 0xdf, 0xe0, 0xe1, 0xe2, 0xff]) if codec != "command" else 0
+        bpos = r.choice([0, 0, 1, 2])
+        pos = r.randrange(3)
+        ln = r.randrange(3)
+        curr = pos + ln + r.choice([0, 0, 1, 2, 3])
+        msg = r.choice([-1, -1, ln])
+        pad = [r.choice([0x11, 0x22, 0]) for _ in range(curr)]
+        x = pad + r.choice(inputs)
+        cut = r.randrange(len(x) + 1)
+        lines = ["dec new %s %s" % (codec, seg(r.randrange(16), x[:cut])), "dec state %d %d %d %d %d" % (code + 256 * bpos, curr, pos, ln, msg)]
+        lines.append(r.choice(["dec run", "dec peek", "dec run"]))
+        if cut < len(x):
+            lines.append(("dec append " + gen.hexs(x[cut:])) if r.random() < 0.6 else ("dec seg " + seg(r.randrange(16), x[cut:])))
+        lines += [r.choice(["dec run", "dec peek"]), "dec run", "dec run"]
+        out.append(("st:%s:%d" % (codec, k), lines))
+    # command text: a preview (peek) that finds the end of a message in progress
+    for k, m in enumerate([[0x68, 0x69], [0x61], [0x61, 0x62, 0x63, 0x64, 0x65]]):
+        for cut in range(len(m) + 1):
+            out.append(("cpk:%d:%d" % (k, cut), ["dec new command %s" % seg(k, [0xdd, 0xdd] + m[:cut]), "dec state 0 2 0 0 -1", "dec run",
+                                                "dec peek", "dec append " + gen.hexs(m[cut:] + [0, 0x62, 0]), "dec peek", "dec peek", "dec run", "dec run", "dec peek", "dec run"]))
     return out
 
 
@@ -319,9 +353,6 @@ class _DQF:
             ops = []
             for _ in range(n):
                 ops.append(r.choice(["dq recv", "dq recv", "dq drain", "dq msg", "dq peek 4", "dq peek 100 nodst", "dq shift"]))
-            if codec == "command":
-                # mpt_queue_peek on command text: the C02 model of queue_peek takes the raw path there (reported to its owner)
-                ops = [o for o in ops if not o.startswith("dq peek")]
             return ops
         # every string over the boundary alphabet up to length 3, fed at once and byte by byte, rings with wrap offsets
         if tier == "quick":
@@ -387,6 +418,14 @@ class _DQF:
                      "dq feed " + gen.hexs(data), "dq recv", "dq grow %d" % (mx + r.choice([64, 1000, mx])),
                      "dq recv", "dq recv", "dq feed " + gen.hexs(cframe(codec, 30, k)), "dq drain", "dq msg"]
             out.append(("dqbig:%s:%d" % (codec, k), lines))
+        # input queue without a decoder ("final data available" paths of mpt_queue_recv / mpt_queue_peek)
+        for k in range((40 if tier == "quick" else 400) * scale):
+            mx = r.choice([8, 16, 40])
+            lines = ["dq new raw max=%d off=%d align=%d" % (mx, r.randrange(mx + 1), r.randrange(16))]
+            for _ in range(r.randrange(1, 5)):
+                lines.append("dq feed " + gen.hexs([r.choice(ALPHA) for _ in range(r.choice([1, 2, 5]))]))
+                lines += [r.choice(["dq recv", "dq recv", "dq peek 3", "dq peek 100", "dq peek 100 nodst", "dq msg", "dq shift"]) for _ in range(r.randrange(1, 4))]
+            out.append(("dqraw:%d" % k, lines + ["dq recv", "dq peek 4", "dq recv", "dq msg"]))
         for k in range((3 if tier == "quick" else 24) * scale):
             codec = ["cobs/zpe", "cobs/zpe+r"][k % 2]
             mx = r.choice([4096, 4096, 6000])
